@@ -14,8 +14,8 @@ def main():
                 continue
             label, _, prop, verdict, secs, detail = m.groups()
             label = label.split("@")[0]
-            if re.match(r"^C\d\d-m\d$", label) is None:
-                mm = re.match(r"^(C\d\d)-(m\d)", label)
+            if re.match(r"^C\d\d-m\d+$", label) is None:
+                mm = re.match(r"^(C\d\d)-(m\d+)", label)
                 label = "%s-%s" % (mm.group(1), mm.group(2)) if mm else label
             how = ""
             d = re.search(r"\(clause ([^,]+), driver ([^,]+),", detail)
